@@ -21,7 +21,7 @@ import (
 )
 
 // fastWithin: a reply that took longer is logged fast=false. maxwaitsec=1 that wrongly waits takes >= 1 s.
-const fastWithin = 700 * time.Millisecond
+const fastWithin = 900 * time.Millisecond
 
 type runner struct {
 	srv      *server
@@ -127,6 +127,10 @@ func fill(ev gate.Event) gate.Event {
 func (r *runner) emit(ev gate.Event) gate.Event {
 	ev["ev"] = "op"
 	ev["via"] = r.via
+	// promptness is part of the protocol only for long polls (maxwaitsec > 0)
+	if !(ev["op"] == "enumwait" || ev["op"] == "enum" && ev["wait"] == 2) {
+		ev["fast"] = true
+	}
 	fill(ev)
 	r.lg.Emit(ev)
 	// blob-hub notifications observed during the call (the hook runs synchronously inside Receive)
